@@ -165,36 +165,41 @@ setup_call_cleanup(S, G, C) :-
        var(CC) ->
        instantiation_error(setup_call_cleanup/3)
     ;  C = _:_ ->
-       scc_helper(C, G, Bb)
+       scc_helper(C, G, Bb, B)
     ;  % The goal expansion of the calling body was abandoned (it contains a
        % non-callable literal such as call(1)), so S, G and C arrive without
        % module qualification. call/1 resolves S and G in user; the cleaner is
        % called from run_cleaners_*, where an unqualified goal would be looked
        % up in iso_ext and never run.
-       scc_helper(user:C, G, Bb)
+       scc_helper(user:C, G, Bb, B)
     ).
 
-:- meta_predicate(scc_helper(?,0,?)).
+:- meta_predicate(scc_helper(?,0,?,?)).
 
-:- non_counted_backtracking scc_helper/3.
+:- non_counted_backtracking scc_helper/4.
 
-scc_helper(C, G, Bb) :-
+% B is the choice point below scc_helper's own one. A cleaner is run only once the
+% choice point of its scc_helper is gone ('$get_scc_cleaner' compares strictly), so
+% the paths on which the helper runs its own cleaner drop that choice point first.
+scc_helper(C, G, Bb, B) :-
     '$get_cp'(Cp),
     '$install_scc_cleaner'(C),
     '$call_with_inference_counting'(call(G)),
     (  '$check_cp'(Cp) ->
        '$reset_scc_block'(Bb),
-       run_cleaners_without_handling(Cp)
+       '$set_cp_by_default'(B),
+       run_cleaners_without_handling(B)
     ;  true
     ;  '$fail'
     ).
-scc_helper(_, _, Bb) :-
+scc_helper(_, _, Bb, B) :-
     '$reset_scc_block'(Bb),
     '$push_ball_stack',
+    '$set_cp_by_default'(B),
     run_cleaners_with_handling,
     '$pop_from_ball_stack',
     '$unwind_stack'.
-scc_helper(_, _, _) :-
+scc_helper(_, _, _, _) :-
     '$get_cp'(Cp),
     run_cleaners_without_handling(Cp),
     '$fail'.
